@@ -420,3 +420,64 @@ class FakeClient:
 def host_scheme(url: str) -> tuple[str, str]:
     p = urlsplit(url)
     return (p.hostname or ""), p.scheme
+
+
+# --------------------------------------------------------------------------- no-progress guard for decode loops
+
+
+class NoProgress(BaseException):
+    """Raised (from a trace function) when a decode loop provably repeats an identical, final state."""
+
+
+class SpinGuard:
+    """Detects a *proven* infinite loop in vgi_rpc._codec's bounded gzip loop without any timing.
+
+    While active, line events inside ``_decompress_body_gzip`` are observed; if the same source line is reached twice
+    with the zlib object already at end-of-stream (``eof`` — its behaviour is then a pure function of its inputs) and
+    an identical (total, len(remaining), unconsumed_tail) state, every further iteration is identical too, so the loop
+    can never end.  The guard then aborts the call with :class:`NoProgress` (a BaseException, so the fetcher's
+    ``except Exception`` cannot swallow it) and remembers the fact.
+    """
+
+    TARGETS = ("_decompress_body_gzip",)
+
+    def __init__(self) -> None:
+        self.spun: str | None = None
+        self._seen: dict[int, set[tuple[Any, ...]]] = {}
+
+    def _local(self, frame: Any, event: str, arg: Any) -> Any:
+        if event == "line":
+            loc = frame.f_locals
+            do = loc.get("do")
+            if do is not None and getattr(do, "eof", False):
+                state = (frame.f_lineno, loc.get("total"), len(loc.get("remaining") or b""), bytes(do.unconsumed_tail))
+                seen = self._seen.setdefault(id(frame), set())
+                if state in seen:
+                    self.spun = (
+                        f"{frame.f_code.co_name} line {frame.f_lineno}: stream at EOF, total={loc.get('total')}, "
+                        f"unconsumed_tail={len(do.unconsumed_tail)} bytes — state repeats, loop cannot terminate"
+                    )
+                    raise NoProgress(self.spun)
+                seen.add(state)
+        return self._local
+
+    def _global(self, frame: Any, event: str, arg: Any) -> Any:
+        if event == "call" and frame.f_code.co_name in self.TARGETS:
+            return self._local
+        return None
+
+    def __enter__(self) -> SpinGuard:
+        import sys
+        import threading
+
+        self._old = sys.gettrace()
+        sys.settrace(self._global)
+        threading.settrace(self._global)
+        return self
+
+    def __exit__(self, *a: Any) -> None:
+        import sys
+        import threading
+
+        sys.settrace(self._old)
+        threading.settrace(None)  # type: ignore[arg-type]
